@@ -595,6 +595,13 @@ func zzArmedChan[T any](c chan T) bool  { panic("spec only") }
 //@ func (replyRegistry).register
 //@ nosafety nil-deref nil-iface
 //@ ensures [fresh] fresh(result)
+//@ ensures [store] zzCalls("github.com/puzpuzpuz/xsync/v3.(*MapOf).Store") == 1 && zzArg[[4]byte]("github.com/puzpuzpuz/xsync/v3.(*MapOf).Store", 0) == key && zzArg[chan replyResult]("github.com/puzpuzpuz/xsync/v3.(*MapOf).Store", 1) == result &&
+//@                 zzCalls("github.com/puzpuzpuz/xsync/v3.(*MapOf).Delete") == 0 && zzCalls("github.com/puzpuzpuz/xsync/v3.(*MapOf).LoadAndDelete") == 0
+
+// Only the waiter removes its registration: removal is keyed and happens in deregister alone.
+//@ func (replyRegistry).deregister
+//@ nosafety nil-deref nil-iface
+//@ ensures [delete] zzCalls("github.com/puzpuzpuz/xsync/v3.(*MapOf).Delete") == 1 && zzArg[[4]byte]("github.com/puzpuzpuz/xsync/v3.(*MapOf).Delete", 0) == key && zzCalls("github.com/puzpuzpuz/xsync/v3.(*MapOf).Store") == 0
 
 //@ func (replyRegistry).route
 //@ emits chan.send
@@ -687,6 +694,13 @@ func lemmaFrameAboveCapRoundTrips() bool { return specF7RoundTrips() }
 
 //@ func (*connection).startConnectLoop
 //@ operation
+//@ nosafety nil-deref nil-iface
+//@ noframe
+//@ modifies nothing
+//@ requires c != nil
+//@ ensures [spawn]   zzCalls("sync.(*WaitGroup).Go:connectLoopWg") == 1 && zzCalls("go") == 0
+//@ ensures [nogauge] zzCalls("hsms.(*ConnectionMetrics).incConnRetry") == 0 && zzCalls("hsms.(*ConnectionMetrics).decConnRetry") == 0 &&
+//@                   zzCalls("hsms.(*ConnectionMetrics).incReconnects") == 0
 
 //@ func (*connection).writeFarewellSeparate
 //@ operation
@@ -794,3 +808,14 @@ func zzChanInv_sendRequest(r *sendRequest) bool { return r != nil && r.msg != ni
 //@                           zzCalls("hsms.(*ConnectionMetrics).incAsyncSendErr") <= 1 &&
 //@                           (zzCalls("hsms.(*ConnectionMetrics).incAsyncSendErr") == 1) == (zzRet[error]("hsms.(*connection).writeFrame") != nil)
 //@ loop 1 exits [discard]    zzCalls("hsms.(*connection).writeFrame") == 0 && zzCalls("chan.recv") >= 1
+
+// ---- C09: ending a generation stops its transport BEFORE waiting for its tasks, because a task parked inside the
+// transport (e.g. a SECS-I Write at the line hand-off) is only released by the transport's Stop.
+
+//@ func (*epoch).join
+//@ nosafety nil-deref nil-iface
+//@ noframe
+//@ modifies nothing
+//@ requires e != nil
+//@ ensures [stopfirst] zzCalls("fn:stopTransport") <= 1 && (zzCalls("fn:stopTransport") == 1 ==> zzSeq("fn:stopTransport") < zzSeq("go"))
+//@ ensures [bounded]   zzCalls("go") == 1 && zzCalls("close") == 1 && zzSeq("go") < zzSeq("close")
